@@ -23,7 +23,7 @@ ASSUMPTIONS = ['the model/encoder in vlib/model.py is a correct reading of the N
                'vlib.refparse on LabVIEW-written files and by agreement with the reader on >10^5 files)',
                'property equality is by value (NaN == NaN); channel values are compared as little-endian bytes']
 REQUIRED = ['contract:receiver.append_data', 'contract:segment._calculate_chunks', 'contract:file._read_data',
-            'files_by_path', 'props_compared']
+            'files_by_path', 'files_with_memmap', 'props_compared']
 
 N = {'quick': 16000, 'thorough': 150000}
 DIRECTED_PER_CELL = {'quick': 6, 'thorough': 60}
@@ -40,8 +40,8 @@ def gen_cases(tier, seed):
                     yield {'k': 'dir', 't': t, 'inter': inter, 'multi': multi, 's': seed * 1000003 + k}
     for i in range(N[tier]):
         yield {'k': 'rnd', 's': seed * 1000003 + i}
-    if tier == 'thorough':
-        for i in range(32):
+    if True:
+        for i in range(32 if tier == 'thorough' else 8):
             yield {'k': 'big', 's': seed * 1000003 + i}
 
 
@@ -150,7 +150,10 @@ def run_case(case, ctx):
     ctx.sample({'case': case, 'segments': [s.describe() for s in segs], 'file_bytes': len(blob)}, limit=2)
     by_path = (case['s'] % 4 == 0)
     try:
-        if by_path:
+        if case['s'] % 4 == 1:
+            tf = TdmsFile.read(io.BytesIO(blob), raw_timestamps=True, memmap_dir=ctx.tmpdir)
+            ctx.count('files_with_memmap')
+        elif by_path:
             path = os.path.join(ctx.tmpdir, 'f.tdms')
             util.write_file(path, blob)
             tf = TdmsFile.read(path, raw_timestamps=True)
